@@ -89,7 +89,8 @@ def grandchild_main(db, Row, second, w):
     os._exit(0)
 
 
-def child_main(db, Row, n_sessions, go_r, rep_w, order, child_fault=False, second=None, grandchild=False):
+def child_main(db, Row, n_sessions, go_r, rep_w, order, child_fault=False, second=None, grandchild=False,
+               disconnect=None):
     go = LineReader(go_r) if go_r is not None else None
     """what the application's child process does after the fork: its own sessions"""
     report = {'sessions': [], 'pid_ok': True}
@@ -109,9 +110,19 @@ def child_main(db, Row, n_sessions, go_r, rep_w, order, child_fault=False, secon
     try:
         # a forked worker starts from its own entry point: it is not inside the parent's with-block any more.
         # (state Pony keeps per thread is inherited by fork - that is exactly what the property is about)
+        if disconnect == 'first':
+            # a worker that "starts clean": db.disconnect() before anything else - closing a connection the
+            # parent opened is a use of it as well
+            db.disconnect()
+            if second is not None:
+                second[0].disconnect()
         for i in range(n_sessions):
             if order in ('parent_first', 'alternating') and go_r is not None:
                 go.readline(30)
+            if disconnect == 'after' and i == 1:
+                db.disconnect()
+                if second is not None:
+                    second[0].disconnect()
             ent = {}
             try:
                 with db_session:
@@ -188,7 +199,8 @@ def run_case(case, scratch):
     shape = 'position=%s|order=%s%s%s%s%s' % (position, order, '|thread' if case.get('thread') else '',
                                               '|child-connect-fault' if case.get('child_fault') else '',
                                               '|second-db' if second is not None else '',
-                                              '|grandchild' if case.get('grandchild') else '')
+                                              '|grandchild' if case.get('grandchild') else '') + \
+        ('|child-disconnect-%s' % case['child_disconnect'] if case.get('child_disconnect') else '')
 
     def viol(sub, detail):
         key = 'C36|%s|%s' % (sub, shape)
@@ -211,7 +223,7 @@ def run_case(case, scratch):
                 os.close(go_w)
                 os.close(rep_r)
                 child_main(db, Row, n_child, go_r, rep_w, order, bool(case.get('child_fault')), second,
-                           bool(case.get('grandchild')))
+                           bool(case.get('grandchild')), case.get('child_disconnect'))
             os.close(go_r)
             os.close(rep_w)
             return pid
@@ -425,7 +437,7 @@ def run_case(case, scratch):
     return {
         'violations': violations, 'fired': [], 'digest': digest,
         'sig': hsh([position, order, n_child, bool(case.get('thread')), bool(case.get('second_db')),
-                    bool(case.get('grandchild')), bool(case.get('child_fault'))]),
+                    bool(case.get('grandchild')), bool(case.get('child_fault')), case.get('child_disconnect')]),
         'nontrivial': True,
         'probes': {'child_opened_own_connection': int(rep['new_connections'] > 0),
                    'child_sessions_ok': sum(1 for s in rep['sessions'] if 'wrote' in s),
